@@ -16,6 +16,7 @@ var ErrBadTubeState = errors.New("tube in bad state")
 
 var errFrameOutOfBounds = errors.New("received data frame out of receive window bounds") // +checklocksignore
 var errTooManyDuplicateACKs = errors.New("too many duplicate acknowledgements")          // +checklocksignore
+var errAckBeyondSent = errors.New("acknowledgement of frames that were never sent")      // +checklocksignore
 
 // TODO(hosono) create a config struct to pass to the muxer to set these things
 
